@@ -554,6 +554,44 @@ theorem query_response_is_code (E : Mimic.Py.Env S) (coldef : Nat → Nat → Mi
                 else .ok { c with out := sent ++ [Ev.write (ok_or_eof c rs.rows.rows.length l w2 fl) false, Ev.drain] } :=
   handle_query_spec E coldef app c data
 
+/-! #### one iteration of the command loop (`command_phase`, translated; kills are the machine's subject) -/
+
+/-- **Every command gets the handler's packets and — iff the handler raised — exactly one ERR, then the sequence reset;
+    nothing else is written.**  For every packet (empty ones, unsupported command bytes, malformed payloads included), every
+    connection state, every parser / application / untranslated-handler behaviour (`parse`, `app`, `other`): what
+    `command_step` appends to the wire is what the dispatched handler wrote, followed by one drained ERR packet exactly in
+    the failure case, followed by `reset_seq`; the executing flag is cleared in every case. -/
+theorem command_step_is_code (E : Mimic.Py.Env S) (cp : S → Nat) (pc : Nat → Mimic.Py.Bytes) (coldef : Nat → Nat → Mimic.Py.Bytes)
+    (parse : Connection S → Mimic.Py.Bytes → Option (ComStmtExecute S)) (app : S → Option (ResultSet S))
+    (other : Nat → Connection S → Mimic.Py.Bytes → Except (Connection S) (Connection S)) (err : Connection S → Mimic.Py.Bytes)
+    (c : Connection S) (data : Mimic.Py.Bytes) :
+    let c1 : Connection S := { c with _executing := true }
+    match data with
+    | [] =>
+      command_step E cp pc coldef parse app other err c data
+        = ({ c with _executing := false, out := c.out ++ [Ev.write (err { c with _executing := false }) true, Ev.reset_seq] }, true)
+    | command :: rest =>
+      match dispatch E cp pc coldef parse app other c1 command.toNat rest with
+      | .ok (some s) =>
+        command_step E cp pc coldef parse app other err c data = ({ s with _executing := false, out := s.out ++ [Ev.reset_seq] }, true)
+      | .ok none =>
+        command_step E cp pc coldef parse app other err c data = ({ c with _executing := false, out := c.out ++ [Ev.reset_seq] }, false)
+      | .error s =>
+        command_step E cp pc coldef parse app other err c data
+          = ({ s with _executing := false, out := s.out ++ [Ev.write (err { s with _executing := false }) true, Ev.reset_seq] }, true) :=
+  command_step_spec E cp pc coldef parse app other err c data
+
+/-- the command loop ends only on COM_QUIT; an unsupported command byte raises (one ERR, the connection goes on) -/
+theorem dispatch_quit_and_unsupported (E : Mimic.Py.Env S) (cp : S → Nat) (pc : Nat → Mimic.Py.Bytes) (coldef : Nat → Nat → Mimic.Py.Bytes)
+    (parse : Connection S → Mimic.Py.Bytes → Option (ComStmtExecute S)) (app : S → Option (ResultSet S))
+    (other : Nat → Connection S → Mimic.Py.Bytes → Except (Connection S) (Connection S)) (c : Connection S) (command : Nat) (rest : Mimic.Py.Bytes) :
+    (dispatch E cp pc coldef parse app other c command rest = .ok none ↔ command = 1) ∧
+    (command ∉ dispatched → dispatch E cp pc coldef parse app other c command rest = .error c) :=
+  ⟨dispatch_quit_iff E cp pc coldef parse app other c command rest, dispatch_unsupported E cp pc coldef parse app other c command rest⟩
+
+/-- the command bytes the code dispatches are the ones the machine's command set names (extracted order of the if / elif chain) -/
+theorem dispatched_codes : dispatched = [3, 22, 24, 23, 28, 26, 25, 14, 17, 31, 13, 1, 2, 4] := by decide
+
 end code
 
 end MimicProps.C03
